@@ -46,4 +46,15 @@ Depth3Seq ==
     \o Flatten([i \in 1..Len(L3) |-> Cross(Len(L3), Len(L3), LAMBDA j, m : Tri("and", L3[i], L3[j], L3[m]))])
     \o Flatten([i \in 1..Len(L3) |-> Cross(Len(L3), Len(L3), LAMBDA j, m : Tri("or", L3[i], L3[j], L3[m]))])
 
+
+\* AND of a leaf over label k with an OR of eq / in leaves over the SAME label, the OR's values in both
+\* orders (the restriction derivation must cope with value lists that are not sorted), OR first or last
+OrEq(k, i, j) == Bin("or", [op |-> "eq", k |-> k, v |-> ValSeq[i]], [op |-> "eq", k |-> k, v |-> ValSeq[j]])
+OrIn(k, i, j) == Bin("or", [op |-> "in", k |-> k, vs |-> <<ValSeq[i]>>], [op |-> "eq", k |-> k, v |-> ValSeq[j]])
+SameLabelOrs(k) == Cross(Len(ValSeq), Len(ValSeq), LAMBDA i, j : OrEq(k, i, j)) \o Cross(Len(ValSeq), Len(ValSeq), LAMBDA i, j : OrIn(k, i, j))
+SameLabelLeaves(k) == <<[op |-> "has", k |-> k]>> \o [i \in 1..Len(ValSeq) |-> [op |-> "eq", k |-> k, v |-> ValSeq[i]]]
+                      \o [i \in 1..Len(SetSeq) |-> [op |-> "in", k |-> k, vs |-> SetSeq[i]]]
+SameLabelSeq == Flatten([n \in 1..Len(KeySeq) |->
+                    Bins("and", SameLabelLeaves(KeySeq[n]), SameLabelOrs(KeySeq[n]))
+                    \o Bins("and", SameLabelOrs(KeySeq[n]), SameLabelLeaves(KeySeq[n]))])
 =============================================================================
